@@ -54,8 +54,7 @@ func (c16) execArgv(ws []string) (string, []Fail) {
 		if !ok {
 			return "bad-op", nil
 		}
-		annotOnly := sp.clear || sp.length || sp.setid != "" || len(sp.del)+len(sp.keep)+len(sp.ren)+len(sp.tag) > 0 || sp.cut != nil ||
-			len(sp.atrank) > 0 || sp.tpath || sp.trank || sp.sci || sp.aho != nil || sp.pat != "" || sp.patname != ""
+		annotOnly := sp.annotOnly()
 		if ws[0] == "grep" && annotOnly {
 			return "bad-op", nil
 		}
